@@ -19,10 +19,16 @@ func main() {
 	case "dns":
 		fmt.Println(c19lib.DNSStress(1, 3, 8, 400, 2*time.Millisecond))
 		fmt.Println(c19lib.DNSStress(2, 1, 8, 300, time.Millisecond))
+		if mx, fin, note := c19lib.DNSBarrier(3, 12); mx > 3 || fin > 3 || note != "" {
+			fmt.Printf("violation: barrier run: max %d final %d entries for size 3 %s\n", mx, fin, note)
+		} else {
+			fmt.Println("ok")
+		}
 	case "fetch":
 		fmt.Println(c19lib.FetchStress(1, 4, 6))
 	case "transport":
 		fmt.Println(c19lib.TransportStress(1, 8, 500))
+		fmt.Println(c19lib.TransportFreshStress(8, 400))
 	case "event":
 		fmt.Println(c19lib.EventStress(4))
 	}
